@@ -225,8 +225,13 @@ def linear_directed(rnd, cfg):
             for uj in range(n_u):
                 hw[2 * uj + 1] = float(rnd.choice([0, 1, 3, 7]))
                 tw[2 * uj] = float(rnd.choice([0, 1, 3, 7]))
+            risky = end_suffix and cfg.get("allow_illposed", True) and rnd.random() < 0.15
+            if risky:
+                # a list that may close the chain although a suffix follows: generation may then fail at the hand-over, but
+                # every pick up to there follows the list as written (outside C06's quantifier: not well-posed)
+                tags.add("illposed:list_to_end_group_before_suffix")
             for ej, (_, esym) in enumerate(end_specs):
-                if not end_suffix and rnd.random() < 0.3:
+                if (not end_suffix or risky) and rnd.random() < (0.3 if not risky else 0.7):
                     # (with an open right terminal a list that ends the chain would leave nothing to hand over)
                     tags.add("list:to_end_group")
                     if esym == ">":
